@@ -87,15 +87,15 @@ func main() {
 			}
 			total += nob
 			bad += nfail
-			if cmd == "unit" || nfail > 0 || *verbose {
-				fmt.Printf("== %s: %d obligations, %d not discharged\n", r.Name, nob, nfail)
+			if cmd == "unit" || nfail > 0 || *verbose || r.VC.coverSt == "unsat" {
+				fmt.Printf("== %s: %d obligations, %d not discharged (cover: %s)\n", r.Name, nob, nfail, r.VC.coverSt)
 			}
 			for _, o := range r.VC.obligs {
 				if o.Cand >= 0 {
 					continue
 				}
 				if o.Status != "unsat" || cmd == "unit" && *verbose {
-					fmt.Printf("   %-8s %-7s %s  (%s)\n", o.Status, o.Solver, o.Name, o.Pos)
+					fmt.Printf("   %-8s %-7s %5.2fs %s  (%s)\n", o.Status, o.Solver, o.TimeS, o.Name, o.Pos)
 					if o.Model != "" && *verbose {
 						fmt.Printf("            model: %s\n", strings.ReplaceAll(o.Model, "\n", " "))
 					}
